@@ -153,7 +153,7 @@ def parse (g : G) : Nat → P → Sk → List Nat → Option Res
     match parse g f a sk inp with
     | none => none
     | some (.ok v r) => some (.ok v r)
-    | some (.err _) => some (.err false)
+    | some (.err ft) => some (.err ft)
   | f+1, .ref i, sk, inp => parse g f (g.rules i) sk inp
   | f+1, .plus a, sk, inp => sugar (.plus a) (parse g f (desugar (.plus a)) sk inp)
   | f+1, .sep a b, sk, inp => sugar (.sep a b) (parse g f (desugar (.sep a b)) sk inp)
@@ -265,8 +265,8 @@ inductive Derives (g : G) : P → Sk → List Nat → Res → Prop where
   | ignoreOk {a sk inp v r} : Derives g a sk inp (.ok v r) → Derives g (.ignore a) sk inp (.ok .unit r)
   | ignoreErr {a sk inp ft} : Derives g a sk inp (.err ft) → Derives g (.ignore a) sk inp (.err ft)
   | namedOk {a sk inp v r} : Derives g a sk inp (.ok v r) → Derives g (.named a) sk inp (.ok v r)
-  /-- `named` replaces the error by a new, non-fatal one (named_impl.hpp) -/
-  | namedErr {a sk inp ft} : Derives g a sk inp (.err ft) → Derives g (.named a) sk inp (.err false)
+  /-- `named` replaces the error message; the fatal flag is kept (named_impl.hpp after af6c285) -/
+  | namedErr {a sk inp ft} : Derives g a sk inp (.err ft) → Derives g (.named a) sk inp (.err ft)
   | ref {i sk inp x} : Derives g (g.rules i) sk inp x → Derives g (.ref i) sk inp x
   /-- `+p`, `separator`, `list`, `uint`, `int_` are *defined* as composite parsers -/
   | sugar {p sk inp x} : IsSugar p → Derives g (desugar p) sk inp x → Derives g p sk inp (postRes p x)
